@@ -46,7 +46,7 @@ def getters_of(sim, five):
 def canon(v):
     """make an inspection result comparable (objects -> dicts, drop timers)"""
     if isinstance(v, str):
-        return "\n".join(l for l in v.splitlines() if "execution time" not in l and "per second" not in l)
+        return "\n".join(l for l in v.splitlines() if not any(w in l.lower() for w in ("time", "per second", "elapsed", "/s")))
     if isinstance(v, (int, float, bool)) or v is None:
         return v
     if isinstance(v, (list, tuple)):
@@ -54,7 +54,7 @@ def canon(v):
     if isinstance(v, dict):
         return {str(k): canon(x) for k, x in sorted(v.items(), key=lambda kv: str(kv[0]))}
     if hasattr(v, "__dict__"):
-        return {k: canon(x) for k, x in sorted(vars(v).items()) if "time" not in k}
+        return {k: canon(x) for k, x in sorted(vars(v).items()) if not any(w in k.lower() for w in ("time", "elapsed", "start", "per_second", "ips"))}
     return repr(v)
 
 
@@ -121,7 +121,7 @@ class InspectRv(Slice):
                 try:
                     getattr(a, nm)()
                 except Exception as e:
-                    findings.append(("violation", f"inspection function {nm}() raised {type(e).__name__}: {e}"))
+                    findings.append(("disagreement", f"inspection function {nm}() raised {type(e).__name__}: {e}"))
             changed = changed or global_state_diff(g0, global_state_digest())
             sa, sb = snap(a), snap(b)
             if sa != sb:
@@ -233,7 +233,7 @@ class InspectLoad(Slice):
                 try:
                     getattr(a, nm)()
                 except Exception as e:
-                    findings.append(("violation", f"inspection function {nm}() raised {type(e).__name__}: {e}"))
+                    findings.append(("disagreement", f"inspection function {nm}() raised {type(e).__name__}: {e}"))
         for t in case["texts"]:
             k = rng.choice([0, 2, 5])
             inspect_batch(k)
@@ -324,7 +324,7 @@ class InspectToy(Slice):
                 try:
                     getattr(a, nm)()
                 except Exception as e:
-                    findings.append(("violation", f"TOY inspection function {nm}() raised {type(e).__name__}"))
+                    findings.append(("disagreement", f"TOY inspection function {nm}() raised {type(e).__name__}"))
             changed = changed or global_state_diff(g0, global_state_digest())
             oa, ob = T.apply_impl(a, op), T.apply_impl(b, op)
             if oa != ob or T.obs_toy(a, False) != T.obs_toy(b, False):
